@@ -214,6 +214,7 @@ func handleLine(cur **Contract, out *[]*Contract, pkgPath, text, line string) er
 		if i := strings.IndexAny(name, " ("); i > 0 {
 			name = name[:i]
 		}
+		// Name#variant: several abstract contracts of one function (one per dynamic type of an interface argument)
 		c := &Contract{Pkg: pkgPath, Func: name, File: line, Loops: map[int]*LoopSpec{}, Raw: map[string][]string{}}
 		if kw == "afunc" {
 			c.Raw["abstract"] = []string{""}
